@@ -183,6 +183,6 @@ def init_worker(tier):
 
 
 def jobs(tier):
-    n, ng = (200, 5) if tier == "quick" else (5000, 120)
+    n, ng = (200, 5) if tier == "quick" else (20000, 500)
     return ([{"sub": "line", "n": n, "shard": i} for i in range(8)] +
             [{"sub": "grid", "n": ng, "shard": i} for i in range(8)])
